@@ -7,6 +7,7 @@ import C01 as c01
 import C04 as c04
 
 PROP = 'C07'
+VARIANTS = ['apply', 'map']
 REPLAYERS = {q: 'replayers/close_join.py' for q in (
     'pool.Pool.join', 'pool.Pool.close', 'pool.TaskHandler.tell_others', 'pool.Worker._ensure_messages_consumed',
     'pool.ResultHandler._make_methods.<locals>.on_ready')}
@@ -22,8 +23,8 @@ ASSUMPTIONS = [
 OUT_OF_REACH = [
     'that join() *returns* (liveness) and that the OS has reaped the children: reduced to "Process.join() was called on every '
     'started worker, after the three helper threads were stopped, in that order"',
-    'map/imap handles: the result counter is credited to the first owner of the handle, not to the worker that sent the '
-    'result (D7, DESIGN.md section 8: 31 s join measured natively) -- those handle kinds are not covered by this check',
+    'imap handles: crediting is not under contract (their owner list has no index); for map handles the clause is generated '
+    'and refuted (D7, known finding)',
 ]
 
 
@@ -73,7 +74,10 @@ def ext_put_result_sentinel(ex, args, kw):
     return SNone()
 
 
-def build(w):
+def build(w, variant='apply'):
+    if variant == 'map':
+        import c07_kinds
+        return c07_kinds.build_map(w)
     for c in c01.build(w):
         w.contracts.setdefault(c.qualname, c)
     ps.declare_submission(w)
@@ -232,6 +236,8 @@ MANIFEST_ENTRY = {
             'retries otherwise; reaping exited workers (_join_exited_workers, C04 contract) never replaces the registries the '
             'result handler and the supervisor share with the pool (the seeded change C07-a).',
     'note': 'Liveness (join() returns) and OS-level reaping are outside contracts: reduced to the order of stop/join calls and to '
-            'the sentinel counts.  apply jobs only -- for map/imap handles the result counter is credited to the first owner of the '
-            'handle (D7 in DESIGN.md, natively 31 s join), not yet under contract.',
+            'the sentinel counts.  The crediting clause is also generated for map handles (variant map): there it is refuted -- the '
+            'counter of the first owner of the handle is credited, not the sender\'s (D7: KNOWN-FINDING with replay; 31 s join '
+            'natively; not repaired: the handles have no index-to-owner interface that covers imap) -- imap handles are not '
+            'under contract here.',
 }
